@@ -6,6 +6,7 @@ import (
 	"net"
 	"os"
 	"path/filepath"
+	"time"
 
 	"github.com/bluenviron/mediamtx/internal/core"
 )
@@ -21,8 +22,18 @@ func WriteConf(dir, name string, cfg any) (string, error) {
 }
 
 // StartCore starts a real Core from a configuration file.
-func StartCore(confPath string) (*core.Core, bool) {
-	return core.New([]string{confPath})
+// A start can fail for reasons that have nothing to do with the configuration when several checks run on the
+// machine at the same time (the per-user limit of inotify instances, 128, is shared by every Core of every
+// process: "couldn't initialize inotify: too many open files"), so a failed start is retried a few times.
+// A configuration that cannot start fails every time.
+func StartCore(confPath string, tries int) (*core.Core, bool) {
+	for i := 0; ; i++ {
+		p, ok := core.New([]string{confPath})
+		if ok || i+1 >= tries {
+			return p, ok
+		}
+		time.Sleep(time.Duration(30*(i+1)) * time.Millisecond)
+	}
 }
 
 // PortsFree reports whether every TCP and UDP port of [base, base+n) can be bound on 127.0.0.1.
